@@ -1314,7 +1314,7 @@ void janet_unmarshal_bytes(JanetMarshalContext *ctx, uint8_t *dest, size_t len) 
 Janet janet_unmarshal_janet(JanetMarshalContext *ctx) {
     Janet ret;
     UnmarshalState *st = (UnmarshalState *)(ctx->u_state);
-    ctx->data = unmarshal_one(st, ctx->data, &ret, ctx->flags);
+    ctx->data = unmarshal_one(st, ctx->data, &ret, ctx->flags + 1);
     return ret;
 }
 
@@ -1351,7 +1351,8 @@ static const uint8_t *unmarshal_one_abstract(UnmarshalState *st, const uint8_t *
     const JanetAbstractType *at = janet_get_abstract_type(key);
     if (at == NULL) janet_panic("unknown abstract type");
     if (at->unmarshal) {
-        JanetMarshalContext context = {NULL, st, flags, data, at};
+        /* Values inside an abstract value are one level deeper, as in marshal_one_abstract */
+        JanetMarshalContext context = {NULL, st, flags + 1, data, at};
         void *abst = at->unmarshal(&context);
         janet_assert(abst != NULL, "null pointer abstract");
         *out = janet_wrap_abstract(abst);
